@@ -5,7 +5,7 @@ import Mathlib.Tactic.SplitIfs
     `Units.elemOffsetBad` (offset test; raised `ValueError`) and — see Tie/UnitDefsDen.lean — `Units.defMeaning`
     (Units/Define.lean), which `Cellml.Props.C03` is about. -/
 
-namespace Cellml.Tie
+namespace Cellml.Tie.PUnitDefs
 open Units Cellml.Gen
 
 /-! ## generic: a `for` loop whose body either raises or continues -/
@@ -136,4 +136,4 @@ example : UnitDefs.makePintUnitDefinitionStr "d"
 example : UnitDefs.makePintUnitDefinition "d" [⟨"c", none, none, none, some "0.0"⟩] = .error ⟨"ValueError"⟩ := by
   decide +kernel
 
-end Cellml.Tie
+end Cellml.Tie.PUnitDefs
